@@ -127,6 +127,16 @@ def finish(ctx):
     n_ob = len(ctx.obs)
     n_ok = sum(1 for o in ctx.obs if o[1])
     wall = time.time() - ctx.t0
+    # the level is the one claimed in the registry (MANIFEST is generated from it); a rule file may only refine the explanation
+    try:
+        import registry
+        claimed = registry.CLAIMED.get(ctx.prop)
+        if claimed:
+            ctx.level = claimed["level"]
+            if ctx.level == "other" and not ctx.explanation:
+                ctx.explanation = claimed["text"]
+    except Exception:
+        pass
     ev = {
         "property_id": ctx.prop,
         "tier": ctx.tier,
